@@ -5,6 +5,7 @@ package interp
 import (
 	"fmt"
 	"go/token"
+	"math"
 	"go/types"
 
 	"golang.org/x/tools/go/ssa"
@@ -423,5 +424,20 @@ func init() {
 		st, _ := builderBuf(args[0])
 		st[1] = []value(nil)
 		return nil
+	}
+}
+
+func init() {
+	externals["math.Float64bits"] = func(fr *frame, args []value) value {
+		if sx, ok := args[0].(sym); ok {
+			return mkval(X.DefineBits(sx.t), types.Uint64)
+		}
+		return math.Float64bits(args[0].(float64))
+	}
+	externals["math.Float64frombits"] = func(fr *frame, args []value) value {
+		if sx, ok := args[0].(sym); ok {
+			return mkval(FFromBits(sx.t), types.Float64)
+		}
+		return math.Float64frombits(args[0].(uint64))
 	}
 }
